@@ -320,7 +320,7 @@ def nldf_integral_scaling(case, ctx):
     # alpha_min = theta_0/256): rho > 3% of the maximum keeps a within a factor 10 of its largest value
     keep = keep[rho[keep] > 3e-2 * rho.max()]
     pts = pts[keep]
-    kw = dict(plan_type=case["plan_type"], inner_grids_level=3)
+    kw = dict(plan_type=case["plan_type"], inner_grids_level=3, aux_lambd=1.6)     # explicit: the default is a tuning parameter
     f = np.asarray(_nldf_desc_getter(mol, probe_grids(mol, pts), dm, settings, **kw))
     fl = np.asarray(_nldf_desc_getter(mol_l, probe_grids(mol_l, pts / lam), dm, settings, **kw))
     usps = np.asarray(settings.get_feat_usps(), float)
@@ -333,6 +333,7 @@ def nldf_integral_scaling(case, ctx):
     if np.max(np.abs(f)) > 1e-6:
         ctx.nontrivial([v["version"], v["level"], v["rho_mult"], specs, case["plan_type"]])
     l1 = v.get("l1", [])
+    tailpair = None
     for k, u in enumerate(usps):
         want = f[k] * lam**u
         sc = float(np.max(np.abs(want))) + 1e-300
@@ -345,10 +346,20 @@ def nldf_integral_scaling(case, ctx):
         sig = ("nldf_usp", v["version"], str(specs[k]), v["rho_mult"])
         if tail:
             ctx.event("tail_dominated_kernel")
-            # se_rvec dot products: only a gross error of the declared power (>= 1) is judged; se_r2 not at all
-            m = np.abs(f[k]) > 0.2 * np.max(np.abs(f[k]))
-            if specs[k] != "se_r2" and m.any() and np.all(f[k][m] * fl[k][m] > 0):
-                uhat = float(np.median(np.log(fl[k][m] / f[k][m]) / np.log(lam)))
+            # se_rvec dot products: only a gross error of the declared power (>= 1) is judged; se_r2 not at all.  They are
+            # judged on a ladder whose lower end is 16 times lower than the default (theta_0 / 4096): with the default
+            # ladder the clamp, not lambda, decides the value (thorough tier, seed 1: measured power 0.72 for a declared 3
+            # on an O atom; 3.28 and 3.32 with the lower end divided by 16 and 256)
+            if specs[k] == "se_r2":
+                continue
+            if tailpair is None:
+                kw_t = dict(kw, alpha_min=float(settings.theta_params[0]) / 4096.0)
+                tailpair = (np.asarray(_nldf_desc_getter(mol, probe_grids(mol, pts), dm, settings, **kw_t)),
+                            np.asarray(_nldf_desc_getter(mol_l, probe_grids(mol_l, pts / lam), dm, settings, **kw_t)))
+            ft, flt = tailpair
+            m = np.abs(ft[k]) > 0.2 * np.max(np.abs(ft[k]))
+            if specs[k] != "se_r2" and m.any() and np.all(ft[k][m] * flt[k][m] > 0):
+                uhat = float(np.median(np.log(flt[k][m] / ft[k][m]) / np.log(lam)))
                 ctx.measure("empirical_power_tail/" + "/".join(sig[1:]), abs(uhat - u) / 1.0)
                 ctx.check(abs(uhat - u) <= 1.0, sig + ("empirical_power_gross",), declared=float(u), measured=uhat, lam=lam)
             continue
